@@ -167,6 +167,10 @@ def pbd_case(ctx, rng):
     r = ctx.call("pbd.deform", h, next(x for x in (4243, 4245, 4247) if x not in bodies), bodies[0])
     if r.ok:
         ctx.violation("decode", dict(sub="deform_unknown_body"), {}, files=[f])
+    # the same queries from several threads that share the one deformer object
+    qs = [(a_, b_) for a_, b_ in pairs if a_ != b_ and assets.pbd_has_next_sibling(bodies, parent, a_)][:25]
+    if qs and n <= 60:
+        ctx.shared_between_threads(["pbd.deform %d %d %d" % (h, a_, b_) for a_, b_ in qs], "pbd-queries", reps=8, files=[f])
     ctx.call("drop", h)
 
 
